@@ -46,7 +46,12 @@ type Peer struct {
 	closed          bool
 	ReplyEnds       map[uint32]int // fid of the request -> stream offset at which its reply ends
 	BatchOnce       bool           // after the first batch answer at once
+	DotuAfterVersion *bool         // dialect to speak once Rversion has been sent
 }
+
+// the client end of the pair created last (for segmentation policies)
+var peerClientEnd *vs.End
+
 
 func NewPeer(end *vs.End, dotu bool) *Peer {
 	return &Peer{End: end, Dotu: dotu, Msize: 8192, out: map[uint16]bool{}, Kinds: map[int]string{}, AnswerVersion: true, InjectedAt: 1 << 30, ReplyEnds: map[uint32]int{}}
@@ -128,6 +133,9 @@ func (p *Peer) Serve() {
 			if m.Type == wire.Tversion {
 				if p.AnswerVersion {
 					p.End.Write(wire.Encode(p.replyFor(-1, m), false))
+				}
+				if p.DotuAfterVersion != nil {
+					p.Dotu = *p.DotuAfterVersion
 				}
 				continue
 			}
@@ -216,6 +224,7 @@ func (p *Peer) flushBatch() {
 func newClientPair(msize uint32, dotu bool) (*go9p.Clnt, *Peer) {
 	resetClientGlobals()
 	ce, se := vs.Pipe("clnt", "peer")
+	peerClientEnd = ce
 	p := NewPeer(se, dotu)
 	vs.Go("peer", p.Serve)
 	c := go9p.NewClnt(ce, msize, dotu)
